@@ -2,8 +2,9 @@ import Nervus.Driver.Util
 import Nervus.Model.SchedCapi
 /-!
   `capi_sched` stream (C09): the C-API auto-commit write entry point under forced schedules.
-  Model-out comes from running the LTS of `Nervus.Model.SchedCapi` with the call order regenerated
-  from the source; spec-out is the set of results of the sequential orders.
+  Model-out comes from running the LTS of `Nervus.Model.SchedCapi` with what the extractor found in
+  the source (call order, where `commit` releases the writer guard); spec-out is the set of results
+  of the sequential orders.
 -/
 namespace Nervus.Driver.CapiSchedStream
 open Nervus Nervus.SchedCapi Nervus.Driver
@@ -11,6 +12,10 @@ open Nervus Nervus.SchedCapi Nervus.Driver
 def parseStmt (tok : String) : Option CStmt :=
   if tok == "inc" then some .inc
   else if tok == "dbl" then some .dbl
+  else if tok == "incA" then some .incA
+  else if tok == "lab" then some .lab
+  else if tok == "merge0" then some (.merge 0)
+  else if tok == "merge1" then some (.merge 1)
   else if tok.startsWith "set" then (parseInt? (tok.drop 3).toString).map .set
   else if tok.startsWith "cas" then
     match (tok.drop 3).toString.splitOn "_" with
@@ -20,41 +25,72 @@ def parseStmt (tok : String) : Option CStmt :=
     | _ => none
   else none
 
-def lockFirst : Bool := Generated.autoCommitLockFirst
+def cfg : Cfg :=
+  { lockFirst := Generated.autoCommitLockFirst,
+    earlyLabel := Generated.commitEarlyReleaseLabel,
+    earlyPlain := Generated.commitEarlyReleasePlain }
+
+def isSafe : Bool := cfg.lockFirst && !cfg.earlyLabel && !cfg.earlyPlain
 
 def b01 (b : Bool) : String := if b then "1" else "0"
 
-/-- state: the counter value the model believes is committed (none before `open`) -/
-def step (st : Option Int) (ws : List String) : Option Int × String × String × String :=
+def tok (d : Db) : String := s!"{d.v}.{d.a}.{d.s0}.{d.s1}"
+
+/-- is the hook point inside `commit` located after a release of the writer guard in the source? -/
+def parkOf (point : String) : Option Park :=
+  let seq := Generated.commitLockSeq
+  match seq.idxOf? ("point:" ++ point), seq.idxOf? "releaseGuard" with
+  | some p, some r => some (if r < p then .afterRelease else .inCommit)
+  | _, _ => none
+
+def raceOut (st : Db) (park : Park) (a b : CStmt) : Db × String × String :=
+  let ab := b.toStmt.seq (a.toStmt.seq st)
+  let ba := a.toStmt.seq (b.toStmt.seq st)
+  let spec := if ab == ba then tok ab else tok ab ++ "/" ++ tok ba
+  let (d, blocked) := race cfg park st a b
+  (d, tok d ++ " | 0 0 " ++ b01 blocked, spec)
+
+def iter {α} (f : α → α) : Nat → α → α
+  | 0, x => x
+  | n + 1, x => iter f n (f x)
+
+/-- state: the committed state the model believes in (none before `open`) -/
+def step (st : Option Db) (ws : List String) : Option Db × String × String × String :=
   match ws, st with
-  | ["open"], _ => (some 0, "ok", "-", "")
-  | ["get"], some v => (some v, toString v, toString v, "")
-  | ["seq", a], some v =>
+  | ["open"], _ => (some ⟨0, 0, 0, 0⟩, "ok", "-", "")
+  | ["get"], some d => (some d, tok d, tok d, "")
+  | ["seq", a], some d =>
     match parseStmt a with
     | some a =>
-      let v' := a.toStmt.seq v
-      (some v', toString v' ++ " | 0", toString v', "")
+      let d' := a.toStmt.seq d
+      (some d', tok d' ++ " | 0", tok d', "")
     | none => (st, "bad-op", "-", "")
-  | ["race", a, b], some v =>
+  | ["race", a, b], some d =>
     match parseStmt a, parseStmt b with
-    | some a, some b =>
-      let ab := b.toStmt.seq (a.toStmt.seq v)
-      let ba := a.toStmt.seq (b.toStmt.seq v)
-      let spec := if ab == ba then toString ab else toString ab ++ "/" ++ toString ba
-      match race lockFirst v a b with
-      | some (v', blocked) => (some v', toString v' ++ " | 0 0 " ++ b01 blocked, spec, "")
-      | none => (st, "model-stuck", spec, "")
+    | some a, some b => let (d', m, s) := raceOut d .between a b; (some d', m, s, "")
     | _, _ => (st, "bad-op", "-", "")
-  | ["stress", n, k], some v =>
+  | ["racec", a, b, point], some d =>
+    match parseStmt a, parseStmt b, parkOf point with
+    | some a, some b, some park => let (d', m, s) := raceOut d park a b; (some d', m, s, "")
+    | _, _, _ => (st, "bad-op", "-", "")
+  | ["stress", n, k], some d =>
     match n.toNat?, k.toNat? with
     | some n, some k =>
-      let v' := v + (n * k : Nat)
-      -- lock-first: every interleaving is serial (theorem C09), so the result is determined;
-      -- snapshot-first: the model is nondeterministic here, it prints `?`
-      (some v', if lockFirst then toString v' else "?", toString v', "")
+      let d' := { d with v := d.v + (n * k : Nat) }
+      -- safe configuration: every interleaving is serial (theorem C09), the result is determined;
+      -- otherwise the model is nondeterministic here and prints `?`
+      (some d', if isSafe then tok d' else "?", tok d', "")
+    | _, _ => (st, "bad-op", "-", "")
+  | ["stressm", n, k], some d =>
+    match n.toNat?, k.toNat? with
+    | some n, some k =>
+      -- every thread: k rounds of `incA; merge (round % 2)` — sequentially: any order gives this
+      let one (r : Nat) (x : Db) : Db := (CStmt.merge (r % 2)).toStmt.seq (CStmt.incA.toStmt.seq x)
+      let d' := iter (fun x => (List.range k).foldl (fun y r => one r y) x) n d
+      (some d', if isSafe then tok d' else "?", tok d', "")
     | _, _ => (st, "bad-op", "-", "")
   | _, _ => (st, "bad-op", "-", "")
 
-def stream : Stream := { σ := Option Int, init := none, step := step }
+def stream : Stream := { σ := Option Db, init := none, step := step }
 
 end Nervus.Driver.CapiSchedStream
